@@ -527,6 +527,10 @@ ASSUMPTIONS = [
     "A4 builtins and library calls satisfy the assumed contracts (trusted_base)",
     "A5 lru_cache / methodtools.lru_cache are identities on values",
     "A6 warnings.warn does not raise",
+    "meta-lemmas L1 (character-wise percent encoder is inverted by percent decoding, any length), L2 (stable sort by "
+    "start keeps a parent row before its child rows, any number of rows) and H (frame + memo invariant => answers "
+    "independent of the call history, any history) are machine-checked in Lean 4 (lemmas/Lemmas.lean, run by "
+    "MANIFEST.setup_cmd); their hypotheses are the per-character / per-function obligations discharged by this check",
 ]
 NOT_COVERED = {
     "C13": ["collections of more than two variants (induction over the composition lemma)",
@@ -613,7 +617,9 @@ def start_canaries(prop, pool, seed):
                 # reported, it does not fail the run (it says nothing about the property)
                 report.append(dict(name=can["name"], applied=False))
                 continue
-            jobs.append(("contracts." + modname, can["case"], seed, {path: src.replace(can["old"], can["new"])}))
+            # 'scope': refute the mutant with the sequence length fixed (false quantified VCs answer 'unknown')
+            jobs.append(("contracts." + modname, can["case"], seed, {path: src.replace(can["old"], can["new"])},
+                         can.get("scope")))
             meta.append(can)
     handle = sharded_submit(pool, jobs) if jobs else None
     return dict(handle=handle, meta=meta, report=report)
@@ -641,7 +647,8 @@ def run_crosscheck(cases, pool, seed, tier):
             continue
         rng = random.Random(f"{seed}:{c.name}")
         if c.samples is not None:
-            prims = [c.samples(rng) for _ in range(n)]
+            k = getattr(c, "xcheck_n", None)
+            prims = [c.samples(rng) for _ in range(n if k is None else (k if tier == "quick" else 10 * k))]
         else:
             prims = list(c.ground())
             if len(prims) > 6000:
